@@ -10,8 +10,8 @@ META = {
                    "patterns with the documented grammar (RX1); alphabet facts that make name.task[.version] uniquely decodable "
                    "(RX2); print/parse tables (RT-P); resolution of ':name' against the listing COND file's directory (REL1); "
                    "__eq__/__hash__ agreement (HASH1); combine() rejects dependencies whose names coincide, because its entries are "
-                   "named by task name alone (CB3). cond gc parses output-directory names with exactly the grammar they are created with (RX1 on gc's patterns, GC1/GC2).",
-    "rules": ["RX1", "RX2", "RT-P", "REL1", "HASH1", "CB3", "GC1", "GC2", "RX1(gc)"],
+                   "named by task name alone (CB3). cond gc parses output-directory names with exactly the grammar they are created with (RX1 on gc's patterns, GC1/GC2). cond restore refuses a destination directory that already exists, so an archived version never shares a directory with a local one (RS2).",
+    "rules": ["RX1", "RX2", "RT-P", "REL1", "HASH1", "CB3", "GC1", "GC2", "RX1(gc)", "RS2"],
     "assumptions": ["re._parser's AST is the engine's semantics (cross-checked on the witnesses in the engine self-check)"],
     "trusted": ["ast parser", "re._parser", "constant folder"],
     "technique": "static analysis: regex AST → symbolic-alphabet DFA language equivalence, plus AST agreement rules",
@@ -113,7 +113,27 @@ def run(A, rep, tier):
     # output path = ctx.output_path / identifier.path / task_output_dir(identifier)
     bi = A.fn("task_types.base.TaskType.__init__")
     st = [s for s in walk_local(bi.node) if isinstance(s, ast.Assign) and norm(s.targets[0]) == "self._output_path_suffix"]
-    rep.check(len(st) == 1 and norm(st[0].value) == "pathlib.Path(self.identifier.path, f.task_output_dir(self.identifier))", "RX2", "location = path / dirname", bi.node,
+    # the task's identifier: the property, its field, or the constructor parameter the field is (unconditionally, earlier) set from
+    id_names = {"self.identifier", "self._identifier"}
+    if len(st) == 1:
+        for s_ in bi.node.body:
+            if s_ is st[0]:
+                break
+            if isinstance(s_, ast.Assign) and norm(s_.targets[0]) == "self._identifier" and isinstance(s_.value, ast.Name) and s_.value.id in bi.params \
+                    and len(A.defs(bi, s_.value.id)) == 0:
+                id_names.add(s_.value.id)
+
+    class _Id(ast.NodeTransformer):
+        def visit_Attribute(self, n):
+            if norm(n) in id_names:
+                return ast.Name(id="ID", ctx=ast.Load())
+            return self.generic_visit(n)
+
+        def visit_Name(self, n):
+            return ast.Name(id="ID", ctx=ast.Load()) if n.id in id_names else n
+    import copy as _copy
+    loc_text = norm(_Id().visit(_copy.deepcopy(st[0].value))) if len(st) == 1 else "?"
+    rep.check(len(st) == 1 and st[0] in bi.node.body and loc_text in ("pathlib.Path(ID.path, f.task_output_dir(ID))", "pathlib.Path(ID.path) / f.task_output_dir(ID)", "ID.path / f.task_output_dir(ID)"), "RX2", "location = path / dirname", bi.node,
               "", "the output location is not identifier.path / task_output_dir(identifier)")
     go = A.fn("task_types.base.TaskType.get_output_path")
     r = [x for x in walk_local(go.node) if isinstance(x, ast.Return)]
@@ -123,14 +143,17 @@ def run(A, rep, tier):
     # RT-P print/parse
     rp = A.fn(TI + "__repr__")
     r = [x for x in walk_local(rp.node) if isinstance(x, ast.Return)]
-    rep.check(len(r) == 1 and norm(r[0].value) == "''.join(['//', '/'.join(self._path.parts), ':', self._name])", "RT-P", "print form", rp.node,
+    from ..analysis import strparts as _sp
+    pf = _sp(A.expand(r[0].value, rp)) if len(r) == 1 else None
+    pf = [p_[4:-1] if p_.startswith("str(") and p_.endswith(")") else p_ for p_ in pf] if pf is not None else None
+    rep.check(pf == ["'//'", "'/'.join(self._path.parts)", "':'", "self._name"], "RT-P", "print form", rp.node,
               "repr = '//' + '/'.join(path.parts) + ':' + name", "__repr__ is `%s`" % (norm(r[0].value) if r else "?"))
     fs = A.fn(TI + "from_str")
     r = [x for x in walk_local(fs.node) if isinstance(x, ast.Return)]
     ok = len(r) == 1 and isinstance(r[0].value, ast.Call) and norm(r[0].value.func) == "cls"
     det = "from_str does not return cls(path=…, name=match.group('name'))"
     if ok:
-        kw = {k.arg: k.value for k in r[0].value.keywords}
+        kw = A.kwmap(r[0].value)
         okn = "name" in kw and norm(kw["name"]) == "match.group('name')"
         pv = A.rvalues(fs, kw.get("path", ast.Constant(None)), r[0], keep=lambda a: a.startswith("none(") and a != "none(match)", depth=2, calls=True)
         pv = [(c, v.replace("match.group('path')", "path_str")) for c, v in pv]
@@ -160,7 +183,7 @@ def run(A, rep, tier):
     rep.check(len(r) == 1 and norm(r[0].value) == "%s.startswith(':')" % rc.params[0], "REL1", "relative iff starts with ':'", rc.node, "", "is_relative_candidate changed")
     fr = A.fn(TI + "from_relative_str")
     r = [x for x in walk_local(fr.node) if isinstance(x, ast.Return)]
-    rep.check(len(r) == 1 and norm(r[0].value) == "cls(path=%s, name=match.group('name'))" % fr.params[2], "REL1", "relative keeps the given directory", fr.node,
+    rep.check(len(r) == 1 and norm(r[0].value) == "cls(%s, match.group('name'))" % fr.params[2], "REL1", "relative keeps the given directory", fr.node,
               "", "from_relative_str does not build (given dir, matched name)")
     # HASH1
     eq = A.fn(TI + "__eq__")
@@ -186,3 +209,6 @@ def run(A, rep, tier):
     # gc maps directory names back to identifiers: its two patterns must describe exactly the names Conductor creates
     from . import fs as FSM
     FSM.rule_gc(A, rep)
+    # restore must not merge an archived version into a directory that already exists (a different version's files)
+    from . import archive_restore as AR
+    AR.rule_rs2(A, rep)
